@@ -21,6 +21,9 @@ const HOSTS = {
   div:       { tpl: (V) => `<div ${V} />`, dir: null, props: () => ({}) }, // which directive a non-form element gets is not specified
   Comp:      { tpl: (V) => `<Comp ${V} />`, component: true, props: () => ({}) },
   CompId:    { tpl: (V) => `<Comp id="a" ${V} />`, component: true, props: () => ({ id: 'a' }) },
+  // a member tag is a component whatever its last segment is called
+  MemberInput: { tpl: (V) => `<ns.input ${V} />`, component: true, props: () => ({}) },
+  MemberInputCk: { tpl: (V) => `<ns.input type="checkbox" ${V} />`, component: true, props: () => ({ type: 'checkbox' }) },
   // only in the v-models differential space: a spread that collides with the generated keys, before / after
   CompSpreadBefore: { tpl: (V) => `<Comp {...sv} ${V} />`, component: true, lonly: true },
   CompSpreadAfter:  { tpl: (V) => `<Comp ${V} {...sv} />`, component: true, lonly: true },
